@@ -1440,9 +1440,7 @@ class InBodyPhase(Phase):
             # - has the same tag name as the token.
             formattingElement = self.tree.elementInActiveFormattingElements(
                 token["name"])
-            if (not formattingElement or
-                (formattingElement in self.tree.openElements and
-                 not self.tree.elementInScope(formattingElement.name))):
+            if not formattingElement:
                 # If there is no such node, then abort these steps
                 # and instead act as described in the "any other
                 # end tag" entry below.
@@ -1462,7 +1460,7 @@ class InBodyPhase(Phase):
             # also in the stack of open elements, but the element
             # is not in scope, then this is a parse error; ignore
             # the token, and abort these steps.
-            elif not self.tree.elementInScope(formattingElement.name):
+            elif not self.tree.elementInScope(formattingElement):
                 self.parser.parseError("adoption-agency-4.4", {"name": token["name"]})
                 return
 
